@@ -33,7 +33,7 @@ theorem sort_order_independent (l₁ l₂ : List Nat) (h : l₁.Perm l₂) :
 theorem volume_line_order_independent (p₁ p₂ m₁ m₂ : List Nat) (hp : p₁.Perm p₂) (hm : m₁.Perm m₂)
     (ops : Option (String × List Nat)) (fictive : Bool) :
     volLine p₁ m₁ ops fictive = volLine p₂ m₂ ops fictive := by
-  unfold volLine
+  unfold volLine volWords
   rw [sort_order_independent p₁ p₂ hp, sort_order_independent m₁ m₂ hm, hp.length_eq, hm.length_eq]
   have e1 : p₁.isEmpty = p₂.isEmpty := by
     cases p₁ <;> cases p₂ <;> simp_all
